@@ -983,4 +983,64 @@ theorem ini_sections_aux (anv : Bool) (t : IniTree) :
   simp
 
 
+/-! ### keyword_search: the keyword of a heading -/
+
+theorem replaceGo_char (a b : Char) (s : Str) :
+    replaceGo [a] [b] 0 s = s.map (fun c => if c = a then b else c) := by
+  induction s with
+  | nil => rfl
+  | cons c cs ih =>
+    by_cases h : c = a
+    · subst h; simp [replaceGo, List.isPrefixOf, ih]
+    · have h' : ¬ a = c := fun e => h e.symm
+      simp [replaceGo, List.isPrefixOf, ih, h, h']
+
+theorem replaceAll_char (a b : Char) (s : Str) :
+    replaceAll [a] [b] s = s.map (fun c => if c = a then b else c) := by
+  simp [replaceAll, replaceGo_char]
+
+/-- the transformation in the code is the documented one: only ' ' and '-' become '_' -/
+theorem txKey_eq_kwOf_aux (k : Str) : txKey k = kwOf k := by
+  unfold txKey kwOf
+  rw [replaceAll_char, replaceAll_char, List.map_map]
+  apply List.map_congr_left
+  intro c _
+  simp only [Function.comp]
+  by_cases h1 : c = ' '
+  · subst h1; decide
+  · by_cases h2 : c = '-'
+    · subst h2; decide
+    · simp [h1, h2]
+
+theorem kwOf_self (h : Str) (h1 : ' ' ∉ h) (h2 : '-' ∉ h) : kwOf h = h := by
+  unfold kwOf
+  conv => rhs; rw [← List.map_id h]
+  apply List.map_congr_left
+  intro c hc
+  have a : c ≠ ' ' := fun e => h1 (e ▸ hc)
+  have b : c ≠ '-' := fun e => h2 (e ▸ hc)
+  simp [a, b]
+
+theorem find_map_pair (f : Str → Str) (kw : Str) (l : List Str) :
+    ((l.map (fun k => (f k, k))).find? (fun p => p.1 = kw)).map (·.2) = l.find? (fun k => f k = kw) := by
+  induction l with
+  | nil => rfl
+  | cons x xs ih =>
+    simp only [List.map_cons, List.find?_cons]
+    by_cases h : f x = kw
+    · simp [h]
+    · simp only [h, decide_false, Bool.false_eq_true, if_false]
+      exact ih
+
+/-- which heading a keyword names: the LAST one, in the iteration order of the key set, whose
+    documented keyword it is -/
+theorem txKeysOf_get (keys : List Str) (kw : Str) :
+    dictGet (txKeysOf keys) kw = keys.reverse.find? (fun k => kwOf k = kw) := by
+  unfold txKeysOf
+  rw [dictGet_fromPairs, ← List.map_reverse]
+  have := find_map_pair txKey kw keys.reverse
+  rw [this]
+  simp only [txKey_eq_kwOf_aux]
+
+
 end IV.TextFormats
